@@ -948,7 +948,8 @@ META = {
                   BackgroundTask.start, BackgroundTask.cancel, BackgroundTask.runner, ticket_generator, EventBus.emit],
     'stubs': ['asyncio event loop -> engine.vloop.VLoop (virtual time; symbolic instants in the timer heap fork on comparison)',
               'network -> object whose send_server_messages records the messages and returns at once',
-              'peer/server connection of an incoming message -> object with an async disconnect()',
+              'peer/server connection of an incoming message -> object with an async disconnect() that returns at once or, in the '
+              'disconnect=slow jobs, stays suspended for a fresh symbolic time (the real PeerConnection.disconnect suspends too)',
               'shares manager / upload info provider -> None (not touched by the executed functions)',
               'tickets: the live generator object of the manager is put at a symbolic position by overwriting its local variable '
               '(PyFrame_LocalsToFast; validated in prelude) and the module global `ticket_generator` of search/manager.py is wrapped so '
@@ -963,7 +964,7 @@ META = {
                        'hence every deadline and every instant at which a reply / removal / expiry happens (Real)'],
     'discriminants': ['the sequence of API calls of a history (job parameter)', 'which registered request the user removes',
                       'which request a matching reply answers', 'which side (user task / library task) runs next when callbacks of both are ready in one instant (2-way, FIFO within a side)',
-                      'send returns at once / takes a symbolic time',
+                      'send returns at once / takes a symbolic time', 'disconnect() returns at once / suspends for a symbolic time',
                       'Timer op script'],
     'bounds': {'quick': {'requests_per_history': '<= 5 (3 direct searches + wishlist rounds of 2)', 'ops_per_history': '<= 9',
                          'consecutive_tickets': 8, 'timer_script_ops': '<= 4 (14 scripts)', 'wishlist_task_rounds': '<= 3',
@@ -1044,6 +1045,20 @@ def jobs(tier):
     for ops in (['TSDRDQ', 'ILDQD', 'TSDXDQ'] if q else ['TSDRDQ', 'ILDQD', 'TSDXDQ', 'TSRDQDXD', 'TSRDXDQ', 'TSDXDRDQ', 'WILDXDQD', 'ILDQDXD']):
         out.append({'harness': 'scenario', 'fn': h_scenario, 'params': {'ops': ops, 'position': 'low', 'send': 'slow'},
                     'requires': ['scenario_end', 'generator_position_symbolic', 'reply']})
+    # the reply handler stays suspended in connection.disconnect(); removals / expiries land inside
+    for ops in (['TSQXD', 'TSQD', 'TSRQDXD', 'ILQD'] if q else
+                ['TSQXD', 'TSQD', 'TSRQDXD', 'ILQD', 'TSQDQD', 'TSPDXD', 'TSDQXDQD', 'WILQXD', 'TSTRQD', 'TSQQXD', 'TSXQD']):
+        req = ['scenario_end', 'generator_position_symbolic', 'reply']
+        if ops != 'TSXQD':       # (there the removal precedes the reply)
+            req += ['reply_reported', 'removed_while_reply_in_flight']
+        out.append({'harness': 'scenario', 'fn': h_scenario, 'params': {'ops': ops, 'position': 'low', 'disconnect': 'slow'},
+                    'requires': req})
+    for users, two in ([(['remove', 'reply'], False), (['reply'], False)] if q else
+                       [(['remove', 'reply'], False), (['reply'], False), (['remove', 'reply_any'], False), (['reply', 'reply'], False),
+                        (['reply', 'search'], False)]):
+        req = ['scenario_end', 'reply', 'removed_while_reply_in_flight'] + (['removed_in_flight'] if 'remove' in users else [])
+        out.append({'harness': 'instant', 'fn': h_instant,
+                    'params': {'users': users, 'two_requests': two, 'disconnect': 'slow'}, 'requires': req})
     inst = [['remove'], ['reply'], ['reply_any'], ['search'], ['remove', 'reply']]
     if not q:
         inst += [['reply', 'reply'], ['remove', 'search'], ['remove', 'reply_any']]
@@ -1072,7 +1087,7 @@ def jobs(tier):
             return 0
         if j['harness'] == 'scenario' and (p.get('position') == 'any' or p.get('send') == 'slow') and len(p['ops']) >= 8:
             return 0
-        if j['harness'] in ('instant', 'wishlist_bg') or p.get('send') == 'slow' or p.get('position') == 'any':
+        if j['harness'] in ('instant', 'wishlist_bg') or p.get('send') == 'slow' or p.get('position') == 'any' or p.get('disconnect') == 'slow':
             return 1
         return 2
     out.sort(key=weight)
